@@ -52,7 +52,7 @@ func (n *wsNoise) Gap(sameLine bool) string {
 
 func TestWorkspaceFiles(t *testing.T) {
 	r := evid.R()
-	r.Check(t, r.Scale(300, 20000), 2, func(t *rapid.T) {
+	r.Check(t, r.Scale(600, 40000), 2, func(t *rapid.T) {
 		cfg := protogen.DefaultConfig()
 		cfg.MaxModules, cfg.MaxFiles, cfg.MaxMessages = 2, 4, 3
 		cfg.CustomOptions = true
@@ -201,7 +201,7 @@ func TestCorpus(t *testing.T) {
 			}
 		}
 	}
-	rounds := r.Pick(2, 30)
+	rounds := r.Pick(3, 60)
 	r.Check(t, r.Scale(len(files)*rounds, len(files)*rounds), 3, func(t *rapid.T) {
 		i := rapid.IntRange(0, len(files)-1).Draw(t, "file")
 		rate := rapid.SampledFrom([]int{0, 2, 8, 20}).Draw(t, "rate")
